@@ -188,9 +188,15 @@ def coq_makefile():
         sh(["coq_makefile", "-f", "_CoqProject", "-o", "Makefile"], cwd=COQ)
 
 
-def coq_make(targets=None, timeout=1500):
-    """Full .vo build (never -vos) of the given targets (default: everything)."""
+def coq_make(targets=None, timeout=1500, force=None):
+    """Full .vo build (never -vos) of the given targets (default: everything).  [force]: compiled files removed first, inside
+    the lock (another check of the same property may be re-checking them with coqchk under that lock)."""
     with Lock("coq"):
+        for vo in (force or []):
+            try:
+                os.remove(os.path.join(COQ, vo))
+            except OSError:
+                pass
         coq_makefile()
         cmd = ["make", "-j16"] + (targets or [])
         rc, out = sh(cmd, cwd=COQ, timeout=timeout, mem_gb=10)   # per process (make -j16 forks several coqc)
@@ -206,6 +212,8 @@ def coqchk(vfile, timeout=2400):
     -> (ok, axioms reported, problems)"""
     mod = "Zn." + vfile[:-2].replace("/", ".")
     with Lock("coq"):
+        # (another check of the same property may have removed the compiled file since it was built: build it again first)
+        sh(["make", "-j16", vfile[:-2] + ".vo"], cwd=COQ, timeout=1500, mem_gb=10)
         rc, out = sh(["coqchk", "-silent", "-o", "-R", ".", "Zn", mod], cwd=COQ, timeout=timeout, mem_gb=16)
     axioms, problems = [], []
     sec = None
@@ -469,11 +477,7 @@ class Check:
         self.obligations = names
         vo = vfile[:-2] + ".vo"
         # force the props file itself to be rechecked so that Print Assumptions output is captured
-        try:
-            os.remove(os.path.join(COQ, vo))
-        except OSError:
-            pass
-        ok, log = coq_make([vo] + (extra_targets or []))
+        ok, log = coq_make([vo] + (extra_targets or []), force=[vo])
         bad = lint_coq(vfile)
         if bad:
             ok = False
